@@ -5701,7 +5701,9 @@ evdns_getaddrinfo_gotresolve(int result, char type, int count,
 			else
 				res = evutil_addrinfo_append_(
 				    data->pending_result, res);
-			res_ttl = data->pending_result_ttl;
+			/* both answers end up in one cache entry: it may live
+			 * only as long as the shorter-lived of them */
+			res_ttl = MIN(ttl, data->pending_result_ttl);
 			data->pending_result = NULL;
 		}
 
